@@ -19,8 +19,10 @@ class Build:
     self.counters = {}
     self.fns = {}          # state index -> state function of this build
 
-  def callbacks(self):
-    """{(i, key): function} with key ENTRY/EXIT/INIT/<sig>; only for clauses that exist."""
+  def callbacks(self, chart=None):
+    """{(i, key): function} with key ENTRY/EXIT/INIT/<sig>; only for clauses that exist.
+    With a chart, the 'method' flavour hands out methods bound to that chart (called with the
+    event only)."""
     from miros.event import return_status
     spec, out = self.spec, {}
 
@@ -49,6 +51,13 @@ class Build:
         p = functools.partial(with_extra, "x")
         p.__name__ = cb.__name__
         return p
+      if flavour == "method" and chart is not None:
+        import types
+
+        def as_method(self_, e):
+          return cb(self_, e)
+        as_method.__name__ = as_method.__qualname__ = cb.__name__
+        return types.MethodType(as_method, chart)
       if flavour == "object":
         class Callable_:
           def __call__(self_, chart, e):
@@ -88,7 +97,7 @@ def build_template(spec, chart):
   b = Build(spec)
   for i in range(spec["n"]):
     b.fns[i] = state_method_template(state_name(i))
-  for (i, key), cb in b.callbacks().items():
+  for (i, key), cb in b.callbacks(chart).items():
     chart.register_signal_callback(b.fns[i], signum(key), cb)
   for i in range(spec["n"]):
     p = spec["parent"][i]
@@ -100,7 +109,7 @@ def build_factory(spec, factory, by_name=False):
   """Factory.create(state=...).catch(signal=..., handler=...).to_method() + nest(); with by_name
   the states are handed to nest() by the names they were created under."""
   b = Build(spec)
-  cbs = b.callbacks()
+  cbs = b.callbacks(factory)
   for i in range(spec["n"]):
     bp = factory.create(state=state_name(i))
     for (j, key), cb in cbs.items():
@@ -143,7 +152,7 @@ class C17(Prop):
   rule = ("One Hypothesis-generated chart (forest of 1-8 states, initial transitions, reactions "
           "handle / transition / decline / counter-guard, states with and without entry, exit and "
           "init callbacks) is built five ways out of uniquely named logging callbacks (plain "
-          "functions, functools.partial objects or callable objects, each carrying a __name__): hand-written "
+          "functions, functools.partial objects, callable objects or methods bound to the chart, each carrying a __name__): hand-written "
           "closures; state_method_template + register_signal_callback + register_parent on an "
           "HsmWithQueues (two charts are built from the same recipe before either is started; in half the cases a "
           "third template chart gets one of its callbacks registered only after it has processed some "
@@ -169,7 +178,8 @@ class C17(Prop):
               any(x is not None for x in spec["init"]) or any(spec["react"])):
         spec["entry"][case["start"]] = True
       return case
-    flav = st.sampled_from([["function"], ["function"], ["function", "partial", "object"], ["partial"], ["object"]])
+    flav = st.sampled_from([["function"], ["function"], ["function", "partial", "object", "method"], ["partial"],
+                            ["object"], ["method"], ["function", "method"]])
     return st.tuples(chartgen.chart_case(max_events=8, max_states=8, max_sigs=3, spy=True), flav,
                      st.one_of(st.none(), st.integers(0, 200)), st.integers(0, 2)).map(
       lambda t: some_callback(dict(t[0], spec=dict(t[0]["spec"], flavours=t[1]), late=t[2],
